@@ -93,10 +93,21 @@ def gen_history(rng, fam):
             # a coarse wall clock: the end of a task and the start of the next
             # one may carry the same time stamp
             'clock_quantum': rng.choice((None, None, None, 0.01, 0.25)),
+            # how the configuration spells the output root (the tasks build
+            # their directories with pathlib, which normalises it)
+            'root_form': rng.choice(('', '', '', '/', '/.', '//')),
             'late_master': rough or rng.random() < 0.15,
             'salt': rng.randrange(1 << 30),
             'tick': rng.choice(sched.TICKS),
             'linemode': rng.random() < 0.15}
+
+
+def spelled_root(root, scn):
+    form = scn.get('root_form', '')
+    if form == '//':
+        head, tail = os.path.split(root)
+        return head + '//' + tail
+    return root + form
 
 
 def present(scn, r):
@@ -217,7 +228,10 @@ def make_tasks_factory(scn, r, root, mods, log, counter):
         out = run['outcome'][i]
         if out == 'raise':
             raise ProbeError('scripted failure')
-        outdir = os.path.join(root, specs[i]['name'])
+        # like the real tasks: <output-root of the configuration>/<name>,
+        # through pathlib
+        from pathlib import Path
+        outdir = str(Path(spelled_root(root, scn), specs[i]['name']))
         os.makedirs(outdir, exist_ok=True)
         mine = {}
         if specs[i].get('echo'):
@@ -356,7 +370,8 @@ def run_history(scn, chooser):
 
             def main():
                 config = mods['config'].Config({'path': {
-                    'output-root': root, 'log-root': root + '-log',
+                    'output-root': spelled_root(root, scn),
+                    'log-root': root + '-log',
                     'report-root': root + '-report'}})
                 if run['via'] == 'execute':
                     args = argparse.Namespace(
@@ -645,6 +660,10 @@ def shrink(scn):
     if scn.get('clock_quantum'):
         new = copy.deepcopy(scn)
         new['clock_quantum'] = None
+        yield new
+    if scn.get('root_form'):
+        new = copy.deepcopy(scn)
+        new['root_form'] = ''
         yield new
     for r, run in enumerate(scn['runs']):
         if run['workers'] > 1:
